@@ -236,8 +236,9 @@ def representable(vals, dtype):
 class Model:
     """files[i] is the FileS behind executor slot f<i>"""
 
-    def __init__(self, fmt, hs_list):
-        self.files = [FileS(fmt, hs) for hs in hs_list]
+    def __init__(self, fmt, hs_list, fmts=None):
+        # fmts: CDF version per file (a two-file history may mix versions); default: the same version everywhere
+        self.files = [FileS((fmts or [fmt] * len(hs_list))[i], hs) for i, hs in enumerate(hs_list)]
 
     # -- helpers
     def _mode_write(self, f, need_def):
@@ -392,6 +393,8 @@ class Model:
                 if i < 0:
                     must.add(E["ENOTATT"])
                 elif dst is not None and not (g is f and op["v"] == op["v2"]):
+                    # the destination file must be able to hold the attribute's type (same rule as put_att)
+                    must |= g.xt_errs(src[i].xt)
                     j = g.find_att(dst, nfc(nm))
                     self._grow(g, dst[j] if j >= 0 else None, src[i].xt, src[i].nelems(), must, may)
         elif k == "del_att":
